@@ -134,8 +134,7 @@ class JsonSchemaParser:
                     alias: str = None,
                     **kwargs,
                     ) -> Tuple[type, Field]:
-        type = self.parse_type(schema, name=name, with_constraints=False)
-        schema_type = schema.get('type') or self.infer_type(schema)
+        type = self.parse_type(schema, name=name)
         # annotations
         default = schema.get('default', unprovided)
         deprecated = schema.get('deprecated', False)
@@ -144,7 +143,6 @@ class JsonSchemaParser:
         readonly = schema.get('readOnly')
         writeonly = schema.get('writeOnly')
         aliases = schema.get('x-aliases')
-        kwargs.update(self.get_constraints(schema, schema_type))
         kwargs.update(
             alias=alias,
             default=default,
@@ -180,7 +178,6 @@ class JsonSchemaParser:
         not_of = schema.get('not')
         const = schema.get('const', unprovided)
         enum = schema.get('enum')
-        conditions = any_of or one_of or all_of or ([not_of] if not_of else [])
         value = const if not unprovided(const) else enum[0] if enum else unprovided
 
         if ref:
@@ -194,22 +191,22 @@ class JsonSchemaParser:
             constraints = self.get_constraints(schema, type)
 
         t = self.default_type
-        if type:
-            if type == 'array':
-                return self.parse_array(
-                    schema,
-                    name=name,
-                    description=description,
-                    constraints=constraints
-                )
-            elif type == 'object':
-                return self.parse_object(
-                    schema,
-                    name=name,
-                    description=description,
-                    constraints=constraints
-                )
-            else:
+        if type == 'array':
+            t = self.parse_array(
+                schema,
+                name=name,
+                description=description,
+                constraints=constraints
+            )
+        elif type == 'object':
+            t = self.parse_object(
+                schema,
+                name=name,
+                description=description,
+                constraints=constraints
+            )
+        else:
+            if type:
                 format = schema.get('format')
                 t = None
                 if format:
@@ -218,28 +215,43 @@ class JsonSchemaParser:
                         # the format names a type of another primitive type: an annotation only
                         t = None
                 t = t or self.type_map.get(type) or self.default_type
+            elif not unprovided(value):
+                t = _type(value)
+            if constraints:
+                t = self.annotate(
+                    t,
+                    name=name,
+                    description=description,
+                    constraints=constraints
+                )
 
-        elif not unprovided(value):
-            t = _type(value)
-        elif conditions:
-            condition_types = [self.parse_type(cond) for cond in conditions]
-            if any_of:
-                t = LogicalType.any_of(*condition_types)
-            elif all_of:
-                t = LogicalType.all_of(*condition_types)
-            elif one_of:
-                t = LogicalType.one_of(*condition_types)
-            elif not_of:
-                t = LogicalType.not_of(*condition_types)
-
-        if constraints:
-            return Rule.annotate(
-                t,
-                name=name,
-                description=description,
-                constraints=constraints
-            )
+        # anyOf / oneOf / allOf / not are further conditions on the same value:
+        # next to a type, to const / enum or to each other they all have to hold
+        conditions = []
+        if any_of:
+            conditions.append(LogicalType.any_of(*[self.parse_type(cond) for cond in any_of]))
+        if one_of:
+            conditions.append(LogicalType.one_of(*[self.parse_type(cond) for cond in one_of]))
+        if all_of:
+            conditions.append(LogicalType.all_of(*[self.parse_type(cond) for cond in all_of]))
+        if not_of:
+            conditions.append(LogicalType.not_of(self.parse_type(not_of)))
+        if conditions:
+            t = LogicalType.all_of(t, *conditions)
         return t
+
+    @classmethod
+    def annotate(cls, t, *args, constraints: dict = None, **kwargs):
+        # a Rule with const (or else enum) checks that constraint alone: const and enum get a rule
+        # of their own next to the rule of the other constraints, and all of them have to hold
+        constraints = dict(constraints or {})
+        singles = [{key: constraints.pop(key)} for key in ('const', 'enum') if key in constraints]
+        rules = []
+        if constraints or args or kwargs.get('options') is not None or not singles:
+            rules.append(Rule.annotate(t, *args, constraints=constraints, **kwargs))
+        for single in singles:
+            rules.append(Rule.annotate(t, constraints=single))
+        return LogicalType.all_of(*rules)
 
     @classmethod
     def get_attname(cls, name: str, excludes: list = None):
@@ -287,7 +299,7 @@ class JsonSchemaParser:
                 constraints.update(min_length=min_properties)
             if max_properties:
                 constraints.update(max_length=max_properties)
-            return Rule.annotate(dict, key_type, Any, constraints=constraints)
+            return self.annotate(dict, key_type, Any, constraints=constraints)
 
         attrs = {}
         annotations = {}
@@ -378,7 +390,7 @@ class JsonSchemaParser:
             args = [items_type]
 
         options = Options(addition=addition) if addition is not None else None
-        return Rule.annotate(
+        return self.annotate(
             origin, *args,
             name=name,
             description=description,
